@@ -496,6 +496,9 @@ func (c *EvalCtx) ident(name string) (*Val, error) {
 // local resolves a source-level local variable name inside the frame (for loop invariants / asserts).
 func (c *EvalCtx) local(name string) *Val {
 	fn := c.fr.fn
+	if name == "$visited" || name == "$pos" || name == "$count" {
+		return c.iterGhost(name)
+	}
 	if name == "$i" && c.hdr != nil {
 		for _, in := range c.hdr.Instrs {
 			if phi, ok := in.(*ssa.Phi); ok && phi.Comment == "rangeindex" {
@@ -869,6 +872,31 @@ func (c *EvalCtx) call(x *Expr) (*Val, error) {
 			return &Val{T: sel(c.e.heapGet(c.st, c.heap(), c.e.keyMapP(ks, vs)), a.T), S: arr(ks, sBool)}, nil
 		}
 		return &Val{T: sel(c.e.heapGet(c.st, c.heap(), c.e.keyMapV(ks, vs)), a.T), S: arr(ks, vs), Typ: types.NewArray(mt.Elem(), 0)}, nil
+	case "strAt", "bytesAt":
+		// element j of a []string / [][]byte given only as a slice header (ghost record)
+		a, err := argv(0)
+		if err != nil {
+			return nil, err
+		}
+		j, err := c.evalAs(x.Args[1], sBV64)
+		if err != nil {
+			return nil, err
+		}
+		if a.S != sSlice {
+			return nil, fmt.Errorf("%s of non-slice", x.S)
+		}
+		es := sStr
+		if x.S == "bytesAt" {
+			es = sBytes
+		}
+		h := c.e.heapGet(c.st, c.heap(), c.e.keyElem(es))
+		return &Val{T: sel(sel(h, "(s_ref "+a.T+")"), "(bvadd (s_off "+a.T+") "+j.T+")"), S: es}, nil
+	case "unboxSlice":
+		a, err := argv(0)
+		if err != nil {
+			return nil, err
+		}
+		return &Val{T: "(boxval_Slice (i_ref " + a.T + "))", S: sSlice}, nil
 	case "unboxStr", "unboxBytes", "unboxPtrBytes", "unboxPtrStr", "unboxPtrU64":
 		a, err := argv(0)
 		if err != nil {
